@@ -88,4 +88,6 @@ theorem cleared_is_anonymous (c : Cfg) (e : Env) (v : View) : classify c e (clea
 theorem shape_ServeHTTP_ok : Oidc.Shapes.Shape_ServeHTTP := by unfold Oidc.Shapes.Shape_ServeHTTP; rfl
 theorem shape_handleLogout_ok : Oidc.Shapes.Shape_handleLogout := by unfold Oidc.Shapes.Shape_handleLogout; rfl
 
+theorem shape_determineScheme_ok : Oidc.Shapes.Shape_determineScheme := by unfold Oidc.Shapes.Shape_determineScheme; rfl
+theorem shape_determineHost_ok : Oidc.Shapes.Shape_determineHost := by unfold Oidc.Shapes.Shape_determineHost; rfl
 end Oidc.Props.C11
